@@ -1030,10 +1030,28 @@ def _raw_target(E, st, v, prim):
 @model(['core::ptr::const_ptr::<impl *const T>::read', 'core::ptr::mut_ptr::<impl *mut T>::read', 'core::ptr::read'],
        'UNSAFE: ptr.read() of a slot pointer == assume_init_read (O2; the slot is dead afterwards)')
 def m_ptr_read(E, st, fid, t, args, dest_ty):
-    tg = _raw_target(E, st, args[0], 'ptr::read')
+    nm = t['callee']['name']
+    tg = _raw_target(E, st, args[0], nm)
     if tg is None:
         return ret(st, ('opq', ('rawread',)))
-    return ret(st, E.slot_read(st, tg[0], tg[1], 'ptr::read'))
+    if args[0][3] == 'outer':
+        # a bitwise copy of the MaybeUninit wrapper: ownership moves only when it is assume_init()ed
+        E.cover.add((E.chain[-1], nm))
+        return ret(st, ('mu_copy', tg[0], tg[1]))
+    return ret(st, E.slot_read(st, tg[0], tg[1], nm))
+
+
+@model('core::mem::maybe_uninit::MaybeUninit::<T>::assume_init',
+       'UNSAFE: by-value assume_init of a wrapper: of a fresh MaybeUninit::new(v) it is v; of a copy read out of a slot it is the move-out of that slot (O2)')
+def m_assume_init_value(E, st, fid, t, args, dest_ty):
+    v = args[0]
+    if v[0] == 'mu_init':
+        E.cover.add((E.chain[-1], 'assume_init'))
+        return ret(st, v[1])
+    if v[0] == 'mu_copy':
+        return ret(st, E.slot_read(st, v[1], v[2], 'assume_init'))
+    E.violate('MODEL', 'unmodelled', 'assume_init', 'assume_init() of a MaybeUninit value of unknown origin')
+    return ret(st, ('opq', ('assume_init',)))
 
 
 @model(['core::ptr::drop_in_place'], 'UNSAFE: drop_in_place of a slot pointer == assume_init_drop (O2)')
@@ -1051,11 +1069,11 @@ def m_drop_in_place(E, st, fid, t, args, dest_ty):
 @model(['core::ptr::mut_ptr::<impl *mut T>::write', 'core::ptr::write'],
        'UNSAFE: ptr.write(v) to a slot pointer == MaybeUninit::write (the slot must not be live)')
 def m_ptr_write(E, st, fid, t, args, dest_ty):
-    tg = _raw_target(E, st, args[0], 'ptr::write')
+    tg = _raw_target(E, st, args[0], 'write')
     if tg is None:
         return ret(st, UNIT)
     out = []
-    for s in E.slot_write(st, tg[0], tg[1], args[1], 'ptr::write'):
+    for s in E.slot_write(st, tg[0], tg[1], args[1], 'write'):
         out.append(('ret', s, UNIT))
     return out
 
@@ -1088,6 +1106,79 @@ def _default_of(E, st, ty, fid, t):
     if k == 'tuple' and not ty['elems']:
         return UNIT
     return None
+
+
+def _swap_slots(E, st, mid, i, j, prim):
+    """exchange the contents of two slots of one container (both must be proved live, or it is the same slot)"""
+    z = st.zone
+    if z.entails_eq(i, j):
+        return
+    li, lj = slots.live(st, mid, i), slots.live(st, mid, j)
+    E.oblig('O2', li is True and lj is True, prim,
+            'swapping slots %s and %s of %s: both must hold live elements (%s)' % (i, j, mid, st.maps[mid].describe()),
+            'unproven', sample='slots %s and %s live' % (i, j))
+    ci, cj = slots.content(st, mid, i), slots.content(st, mid, j)
+    slots.set_content(st, mid, i, cj)
+    slots.set_content(st, mid, j, ci)
+    st.maps[mid].examined = None
+    st.log('swap', mid, i, j)
+
+
+@model('core::slice::<impl [T]>::swap', 'exchanges two elements; panics when an index is out of bounds')
+def m_slice_swap(E, st, fid, t, args, dest_ty):
+    s = _slice_of(E, st, args[0])
+    if s is None or args[1][0] != 'int' or args[2][0] != 'int':
+        return E.opaque_call(st, fid, t, args, dest_ty)
+    mid, lo, hi, _ = s
+    out = []
+    idx = []
+    for a in (args[1], args[2]):
+        i = E.add_terms(st, lo, a[1]) if not (isinstance(lo, int) and lo == 0) else a[1]
+        if not st.zone.entails_lt(i, hi):
+            out.extend(escape(E, st, 'core', 'swap: index out of bounds'))
+        st.zone.add_lt(i, hi)
+        idx.append(i)
+    if not st.zone.sat:
+        return out
+    z = st.zone
+    if not z.entails_eq(idx[0], idx[1]) and not z.entails_ne(idx[0], idx[1]):
+        same = st.fork()
+        same.zone.add_eq(idx[0], idx[1])
+        if same.zone.sat:
+            out.append(('ret', same, UNIT))
+        E.assume_cond(st, ('Ne', idx[0], idx[1]), True)
+        if not (z.entails_lt(idx[0], idx[1]) or z.entails_lt(idx[1], idx[0])):
+            # neither order is known: both are explored
+            lt = st.fork()
+            lt.zone.add_lt(idx[0], idx[1])
+            st.zone.add_lt(idx[1], idx[0])
+            for s2 in (lt, st):
+                if s2.zone.sat:
+                    _swap_slots(E, s2, mid, idx[0], idx[1], 'swap')
+                    out.append(('ret', s2, UNIT))
+            return out
+    _swap_slots(E, st, mid, idx[0], idx[1], 'swap')
+    out.append(('ret', st, UNIT))
+    return out
+
+
+@model('core::mem::swap', 'exchanges the values behind the two references')
+def m_mem_swap(E, st, fid, t, args, dest_ty):
+    a, b = args[0], args[1]
+    if a[0] != 'ref' or b[0] != 'ref':
+        return E.opaque_call(st, fid, t, args, dest_ty)
+    if a[2][0] == 'mu' and b[2][0] == 'mu' and a[2][1] == b[2][1]:
+        _swap_slots(E, st, a[2][1], a[2][2], b[2][2], 'mem::swap')
+        return ret(st, UNIT)
+    if a[2][0] in ('mu', 'pairs', 'slice', 'len') or b[2][0] in ('mu', 'pairs', 'slice', 'len'):
+        return E.opaque_call(st, fid, t, args, dest_ty)     # reported as unmodelled access to slot storage
+    va, vb = E.load(st, a[2]), E.load(st, b[2])
+    out = []
+    for s1 in E.store(st, a[2], vb):
+        for s2 in E.store(s1, b[2], va):
+            s2.log('replace', E.tag_of(a), E.tag_of(vb), E.tag_of(va))
+            out.append(('ret', s2, UNIT))
+    return out
 
 
 @model('core::mem::take', 'replaces *dest by Default::default() and returns the previous *dest')
@@ -1141,13 +1232,13 @@ def m_ptr_add(E, st, fid, t, args, dest_ty):
     mid, lo, hi = b[1], b[2], b[3]
     idx = E.add_terms(st, lo, i[1]) if not (isinstance(lo, int) and lo == 0) else i[1]
     if E.struct_is_cap(st, mid, hi):
-        E.check_index(st, mid, idx, 'ptr::add')
+        E.check_index(st, mid, idx, 'add')
     else:
         ok = st.zone.entails_lt(idx, hi)
-        E.oblig('O1', ok, 'ptr::add', 'pointer offset %s is not proved < slice end %s' % (idx, hi), 'unproven',
+        E.oblig('O1', ok, 'add', 'pointer offset %s is not proved < slice end %s' % (idx, hi), 'unproven',
                 sample='%s < %s' % (idx, hi))
         st.zone.add_lt(idx, hi)
-    return ret(st, ('rawslot', mid, idx, True))
+    return ret(st, ('rawslot', mid, idx, 'outer'))
 
 
 @model(['core::ptr::copy_nonoverlapping', 'core::intrinsics::copy_nonoverlapping', 'core::ptr::copy'],
@@ -1161,9 +1252,10 @@ def m_copy_nonoverlapping(E, st, fid, t, args, dest_ty):
         E.oblig('O1', st.zone.entails_ne(src[2], dst[2]), 'copy_nonoverlapping',
                 'source slot %s and destination slot %s are not proved distinct' % (src[2], dst[2]), 'unproven',
                 sample='%s != %s' % (src[2], dst[2]))
-    v = E.slot_read(st, src[1], src[2], 'copy_nonoverlapping')
+    nm = t['callee']['name']
+    v = E.slot_read(st, src[1], src[2], nm)
     out = []
-    for s2 in E.slot_write(st, dst[1], dst[2], v, 'copy_nonoverlapping'):
+    for s2 in E.slot_write(st, dst[1], dst[2], v, nm):
         out.append(('ret', s2, UNIT))
     return out
 
